@@ -546,3 +546,367 @@ RULES["C18"] = ("object trees of depth 0..4 with cfg'd and plain blocks, objects
                 "distinct = distinct (syntax, definition)")
 CHECKS["C18"] = check_c18
 NONTRIVIAL["C18"] = lambda c: c.get("profile") == "cfg" and '"cfg"' in json.dumps(c["adef"]) and '"block"' in json.dumps(c["adef"])
+
+
+# ------------------------------------------------------------------------------------ address family (C04, C12, C13)
+
+def find_object(objs, name):
+    for o in all_objects(objs):
+        if o["name"] == name:
+            return o
+    return None
+
+
+def spec_instances(adef, limit=20000):
+    """Every (kind, display path, absolute address, allow_overlap) the definition declares, from the
+    property text: sum(block offset + block index*stride) + object address + index*stride; refs at
+    their own address/repeat with the target's layout. Returns None when the tree is cyclic or huge."""
+    top = adef["objects"]
+    out = []
+    budget = [limit]
+
+    def rep(o):
+        r = o.get("repeat")
+        return (int(r["count"]), int(r["stride"])) if r else (1, 0)
+
+    def walk(objs, base, path, depth):
+        if depth > 12:
+            raise RecursionError
+        for o in objs:
+            k = o["kind"]
+            if k == "block":
+                cnt, st = rep(o)
+                for i in range(cnt):
+                    walk(o.get("objects", []), base + int(o.get("address_offset", "0")) + i * st, path + [(o["name"], i if "repeat" in o else None)], depth + 1)
+            elif k in ("register", "command", "buffer"):
+                cnt, st = rep(o)
+                for i in range(cnt):
+                    budget[0] -= 1
+                    if budget[0] < 0:
+                        raise OverflowError
+                    out.append({"kind": k, "path": path + [(o["name"], i if "repeat" in o else None)],
+                                "address": base + int(o["address"]) + i * st,
+                                "allow": bool(o.get("allow_address_overlap", False)), "name": o["name"]})
+            elif k == "ref":
+                ov = o["override"]
+                t = find_object(top, o["target"])
+                if t is None or t["kind"] != ov["kind"]:
+                    continue
+                r = ov.get("repeat") or t.get("repeat")
+                cnt, st = (int(r["count"]), int(r["stride"])) if r else (1, 0)
+                if ov["kind"] == "block":
+                    off = int(ov.get("address_offset", t.get("address_offset", "0")))
+                    for i in range(cnt):
+                        walk(t.get("objects", []), base + off + i * st, path + [(o["name"], i if r else None)], depth + 1)
+                else:
+                    addr = int(ov.get("address", t["address"]))
+                    for i in range(cnt):
+                        budget[0] -= 1
+                        if budget[0] < 0:
+                            raise OverflowError
+                        out.append({"kind": ov["kind"], "path": path + [(o["name"], i if r else None)],
+                                    "address": base + addr + i * st,
+                                    "allow": bool(t.get("allow_address_overlap", False)) or bool(ov.get("allow_address_overlap", False)),
+                                    "name": o["name"]})
+    try:
+        walk(top, 0, [], 0)
+    except (RecursionError, OverflowError):
+        return None
+    return out
+
+
+def spec_collides(insts):
+    seen = {}
+    for x in insts:
+        key = (x["kind"], x["address"])
+        for y in seen.get(key, []):
+            if not (x["allow"] and y["allow"]):
+                return (y, x)
+        seen.setdefault(key, []).append(x)
+    return None
+
+
+def has_block_ref(adef):
+    return any(o["kind"] == "ref" and o["override"]["kind"] == "block" for o in all_objects(adef["objects"]))
+
+
+def check_c12(c, af, a, mf):
+    if c.get("profile") not in ("collide", "mixed"):
+        return None
+    insts = spec_instances(c["adef"])
+    if insts is None:
+        return None
+    oc = af.get("outcome")
+    if oc in ("panic", "abort", "timeout"):
+        return {"why": f"address analysis makes the generator {oc}", "finding": None}
+    col = spec_collides(insts)
+    if oc == "error" and af.get("kind") != "address_collision":
+        return None   # rejected earlier for another reason
+    if col and oc == "ok":
+        return {"why": f"two {col[0]['kind']} instances share address {col[0]['address']} ({col[0]['name']} / {col[1]['name']}) but the definition is accepted", "finding": None}
+    if not col and oc == "error":
+        return {"why": "no two same-kind instances share an address (or both allow overlap) but the definition is rejected: " + json.dumps(af.get("names")), "finding": None}
+    if col and oc == "error":
+        # the error names both objects and the shared address
+        nums = af.get("numbers") or []
+        names = af.get("names") or []
+        addrs = {x["address"] for x in insts}
+        if len(names) < 2 or not nums or int(nums[0]) not in addrs:
+            return {"why": "the collision error does not name both objects and a shared address", "finding": None}
+        a_ = int(nums[0])
+        clash = [x for x in insts if x["address"] == a_]
+        leafs = {loose(x["name"]) for x in clash}
+        def leaf_of(n):
+            last = n.split("::")[-1]
+            last = last.split(" (index")[0]
+            return loose(last)
+        if leaf_of(names[0]) not in leafs or leaf_of(names[1]) not in leafs:
+            return {"why": f"the collision error names {names} which do not sit at address {a_}", "finding": None}
+    return None
+
+
+RULES["C12"] = ("object trees over a small address range so that collisions are frequent: own repeats with stride 0 and of both "
+                "signs, repeated and nested blocks, refs of all three kinds, allow-overlap flags on objects and ref overrides; an "
+                "independent brute-force oracle enumerates all instances; non-trivial = at least two instances of one kind; "
+                "distinct = distinct (syntax, definition)")
+CHECKS["C12"] = check_c12
+
+
+def nontrivial_c12(c):
+    insts = spec_instances(c["adef"]) or []
+    kinds = {}
+    for x in insts:
+        kinds[x["kind"]] = kinds.get(x["kind"], 0) + 1
+    return any(v >= 2 for v in kinds.values())
+
+
+NONTRIVIAL["C12"] = nontrivial_c12
+
+TYPE_RANGE = {"u8": (0, 255), "u16": (0, 65535), "u32": (0, 2**32 - 1), "u64": (0, 2**64 - 1), "u128": (0, 2**128 - 1),
+              "i8": (-128, 127), "i16": (-32768, 32767), "i32": (-2**31, 2**31 - 1), "i64": (-2**63, 2**63 - 1),
+              "i128": (-2**127, 2**127 - 1)}
+
+
+def emitted_walk(af):
+    """Evaluate the emitted accessor chains of an accepted output: for every leaf accessor and
+    every valid index tuple, the base-address arithmetic in the internal type T exactly as the
+    generated code performs it: `self.base_address + LIT (+|-) index as T * STRIDE`, then `as AddrT`.
+    Yields dicts {kind, path, value | overflow(str), address_type}."""
+    T = af["internal_address_type"]
+    lo, hi = TYPE_RANGE[T]
+    blocks = {}
+    for b in af["blocks"]:
+        blocks.setdefault(b["name"], b)
+    root = [b for b in af["blocks"] if b["root"]][0]
+    out = []
+    budget = [20000]
+
+    def fits(v):
+        return lo <= v <= hi
+
+    def step(base, m, i):
+        lit = int(m["address"])
+        if not fits(lit) and lit < 0 and lo == 0:
+            return None, f"negative literal {lit} in unsigned {T}"
+        v = base + lit
+        if not fits(v):
+            return None, f"{base} + {lit} overflows {T}"
+        if m["repeat"]:
+            st = int(m["repeat"]["stride_abs"])
+            idx = i
+            if not fits(idx) or not fits(st):
+                return None, f"index {idx} or stride {st} does not fit {T}"
+            prod = idx * st
+            if not fits(prod):
+                return None, f"{idx} * {st} overflows {T}"
+            v = v + prod if m["repeat"]["op"] == "+" else v - prod
+            if not fits(v):
+                return None, f"address {v} overflows {T}"
+        return v, None
+
+    def walk(block, base, path, depth):
+        if depth > 12:
+            return
+        for m in block["methods"]:
+            cnt = int(m["repeat"]["count"]) if m["repeat"] else 1
+            for i in range(cnt):
+                budget[0] -= 1
+                if budget[0] < 0:
+                    raise OverflowError
+                v, err = step(base, m, i)
+                p = path + [(m["name"], i if m["repeat"] else None)]
+                if m["kind"] == "block":
+                    if err:
+                        out.append({"kind": "block", "path": p, "overflow": err})
+                        continue
+                    sub = blocks.get(m["target"])
+                    if sub is not None:
+                        walk(sub, v, p, depth + 1)
+                else:
+                    rec = {"kind": m["kind"], "path": p, "address_type": m["address_type"], "block": block["name"],
+                           "method": m["name"], "index": i if m["repeat"] else None, "base": base}
+                    if err:
+                        rec["overflow"] = err
+                    else:
+                        alo, ahi = TYPE_RANGE[m["address_type"]]
+                        rec["value"] = v
+                        rec["cast_ok"] = alo <= v <= ahi
+                    out.append(rec)
+    try:
+        walk(root, 0, [], 0)
+    except OverflowError:
+        return None
+    return out
+
+
+def path_key(path):
+    return tuple((loose(n), i) for n, i in path)
+
+
+def check_c04(c, af, a, mf):
+    if c.get("profile") not in ("mixed", "addr") or af.get("outcome") != "ok":
+        return None
+    insts = spec_instances(c["adef"])
+    if insts is None:
+        return None
+    want = {path_key(x["path"]): x for x in insts}
+    got = emitted_walk(af)
+    if got is None:
+        return None
+    known = agree(af, mf)
+    seen = set()
+    for g in got:
+        if g["kind"] == "block":
+            continue
+        k = path_key(g["path"])
+        seen.add(k)
+        w = want.get(k)
+        if w is None:
+            return {"why": f"accessor chain {g['path']} does not correspond to a declared object instance", "finding": None}
+        if "overflow" in g:
+            continue   # C13's concern
+        if g["value"] != w["address"]:
+            return {"why": f"accessor chain {g['path']} computes {g['value']}, the definition gives {w['address']}", "finding": None}
+        if g["kind"] != w["kind"]:
+            return {"why": f"accessor chain {g['path']} is a {g['kind']}, declared {w['kind']}", "finding": None}
+    # chains below a block whose own base computation overflows the internal type are C13's concern
+    dead = [path_key(g["path"]) for g in got if g["kind"] == "block" and "overflow" in g]
+    missing = [k for k in want if k not in seen and not any(k[:len(d)] == d for d in dead)]
+    if missing:
+        return {"why": f"declared instance {missing[0]} has no accessor chain", "finding": None}
+    # index bound: the assert count equals the declared repeat count (checked through the instance sets above);
+    # read_all_registers: exactly the readable registers of the block x every index, in declaration order,
+    # reporting the address used on the bus
+    for b in af["blocks"]:
+        expect = []
+        for m in b["methods"]:
+            if m["kind"] == "register" and m["access"] in ("RW", "RO"):
+                cnt = int(m["repeat"]["count"]) if m["repeat"] else 1
+                for i in range(cnt):
+                    expect.append((m["name"], i if m["repeat"] else None))
+        gotra = [(r["method"], int(r["index"]) if r["index"] is not None else None) for r in b["read_all"]]
+        if gotra != expect:
+            return {"why": f"block {b['name']}: read_all_registers visits {gotra[:6]}, readable registers x indices are {expect[:6]}", "finding": None}
+        bases = {g["base"] for g in got if g.get("block") == b["name"] and "base" in g}
+        for r in b["read_all"]:
+            m = [m for m in b["methods"] if m["name"] == r["method"]][0]
+            i = int(r["index"]) if r["index"] is not None else 0
+            reported = int(r["address"]) + i * int(r["stride"])
+            for base in (bases or {0}):
+                lit = int(m["address"])
+                used = base + lit
+                if m["repeat"]:
+                    used = used + i * int(m["repeat"]["stride_abs"]) if m["repeat"]["op"] == "+" else used - i * int(m["repeat"]["stride_abs"])
+                if reported != used:
+                    fid = "F2-read-all-reports-relative-address" if (known and not b["root"] and reported == used - base) else None
+                    return {"why": f"block {b['name']}: read_all_registers reports {reported} for {r['display']} but the read goes to {used}", "finding": fid}
+    return None
+
+
+RULES["C04"] = ("whole devices (nesting 0..3, repeats on blocks and objects, strides of both signs, refs of all kinds, all address "
+                "types); every accessor chain x every valid index tuple is evaluated from the emitted address expressions and "
+                "compared with the sum formula computed from the definition; read_all_registers items are compared with the "
+                "readable registers x indices and with the bus address; non-trivial = at least one block or repeat; "
+                "distinct = distinct (syntax, definition)")
+CHECKS["C04"] = check_c04
+NONTRIVIAL["C04"] = lambda c: '"block"' in json.dumps(c["adef"]) or '"repeat"' in json.dumps(c["adef"])
+
+
+def near_i64(adef):
+    """Some address, offset or stride of the definition has a magnitude within 2^16 of the i64 limits."""
+    lim = 2 ** 63 - 2 ** 16
+    for o in all_objects(adef["objects"]):
+        for k in ("address", "address_offset"):
+            if k in o and abs(int(o[k])) >= lim:
+                return True
+        ov = o.get("override", {})
+        for k in ("address", "address_offset"):
+            if k in ov and abs(int(ov[k])) >= lim:
+                return True
+    return False
+
+
+def check_c13(c, af, a, mf):
+    if c.get("profile") not in ("addr", "mixed", "addrtype"):
+        return None
+    adef = c["adef"]
+    cfg = adef.get("config", {})
+    oc = af.get("outcome")
+    if oc in ("panic", "abort", "timeout"):
+        fid = None
+        if oc == "panic" and af.get("site") == "arith_overflow" and agree(af, mf) and near_i64(adef):
+            fid = "F16-i64-overflow-panics-in-address-analysis"
+        return {"why": f"address analysis makes the generator {oc} ({af.get('site')})", "finding": fid}
+    insts = spec_instances(adef)
+    if insts is None:
+        return None
+    tkey = {"register": "register_address_type", "command": "command_address_type", "buffer": "buffer_address_type"}
+    known = agree(af, mf)
+    # a used kind needs an address type
+    for x in insts:
+        if tkey[x["kind"]] not in cfg and oc == "ok":
+            return {"why": f"a {x['kind']} exists but no {x['kind']} address type is configured, yet the definition is accepted", "finding": None}
+    misfit = None
+    for x in insts:
+        t = cfg.get(tkey[x["kind"]])
+        if t:
+            lo, hi = TYPE_RANGE[t]
+            if not (lo <= x["address"] <= hi):
+                misfit = (x, t)
+                break
+    if misfit and oc == "ok":
+        x, t = misfit
+        fid = None
+        if known:
+            under_rep_block = any(i is not None for _, i in x["path"][:-1])
+            fid = "F6a-minmax-ignores-enclosing-block-repeat" if under_rep_block else None
+            if has_block_ref(adef):
+                fid = "F6b-minmax-ignores-block-ref-children" if not under_rep_block else fid
+        return {"why": f"{x['kind']} instance {x['path']} has address {x['address']} outside {t} but the definition is accepted", "finding": fid}
+    if oc == "error" and af.get("kind", "").startswith("addr_too_"):
+        nums = af.get("numbers") or []
+        if len(nums) < 2:
+            return {"why": "the address-range error does not state the offending bound", "finding": None}
+    if oc != "ok":
+        return None
+    # accepted: the generated arithmetic never overflows on the way
+    for g in (emitted_walk(af) or []):
+        if "overflow" in g:
+            fid = None
+            if known:
+                if "negative literal" in g["overflow"]:
+                    fid = "F15-negative-literal-in-unsigned-internal-type"
+                elif "*" in g["overflow"] or "overflows" in g["overflow"]:
+                    fid = "F6c-internal-type-overflow-in-address-arithmetic"
+            return {"why": f"accessor chain {g['path']}: {g['overflow']}", "finding": fid}
+        if g["kind"] != "block" and not g.get("cast_ok", True):
+            return {"why": f"accessor chain {g['path']}: {g['value']} does not fit {g['address_type']}", "finding": None}
+    return None
+
+
+RULES["C13"] = ("object trees whose extreme addresses sit at -1/0/+1 around the limits of each of the seven address types (offsets, "
+                "repeats on objects and blocks, negative strides, refs, block refs); exact oracle over all instances and over the "
+                "emitted arithmetic in the internal type; non-trivial = some instance within 2 of a type limit or a repeat/block; "
+                "distinct = distinct (syntax, definition)")
+CHECKS["C13"] = check_c13
+NONTRIVIAL["C13"] = NONTRIVIAL["C04"]
